@@ -134,11 +134,14 @@ func compareBuilds(rc *runCfg, pl *plan, m *merged) error {
 		m.addInconclusive("transcripts of one build configuration are missing: cross-build comparison not done")
 		return nil
 	}
-	for _, other := range []string{"purego", "386"} {
+	for _, other := range []string{"purego", "386", "amd64v3"} {
 		b := byCfg[other]
 		if len(b) == 0 {
 			if other == "386" {
 				m.addInconclusive("no transcripts from the GOARCH=386 build (cross-build or execution not possible here)")
+			}
+			if other == "amd64v3" {
+				m.addInconclusive("no transcripts from the GOAMD64=v3 build (this machine cannot execute it, or it did not build)")
 			}
 			continue
 		}
@@ -168,10 +171,22 @@ func compareBuilds(rc *runCfg, pl *plan, m *merged) error {
 	return nil
 }
 
+// c20Stages: the two configurations the property names, plus the other configurations this
+// machine can execute (extra reach, reported separately): the portable code with a 32-bit int
+// (GOARCH=386) and the optimised build for a newer micro-architecture level (GOAMD64=v3), where
+// both the compiler's code and any level-specific assembly differ.
+func c20Stages() []stage {
+	st := []stage{{config: "default"}, {config: "purego"}, {config: "386"}}
+	if hostRunsAMD64v3() {
+		st = append(st, stage{config: "amd64v3"})
+	}
+	return st
+}
+
 func init() {
 	plans["C20"] = &plan{
-		stages:      []stage{{config: "default"}, {config: "purego"}, {config: "386"}},
-		rule:        "the same monitor runs in a worker built without tags (amd64 assembly feMul/feSquare) and in one built with -tags purego from the same working tree. Each chunk (seeded by its index) (1) evaluates Multiply and Square on 24 operand pairs drawn from the reachable-representation recipes, half of them limb-maximising (limbs at 2^51+2^32, limb0 at 2^51+19*2^32), comparing value (Bytes and raw limbs) with math/big and asserting output limbs < 2^52 in each build; (2) places out/a/b at the start or end of an mmap'ed page bordered by PROT_NONE pages for all aliasing patterns (out=a, out=b, a=b, all equal), so any access outside the 40-byte operands is a fatal fault attributed to the chunk; (3) runs a deterministic public-API program (field inversion/sqrt/wide reduction, scalar arithmetic, decoding of arbitrary bytes, all point arithmetic and all five multiplications, encodings, Montgomery form, exported coordinates) hashing every value-level output; the controller compares the per-chunk hashes across the two builds. distinct by (operation, operand values and raw limbs).",
+		stages:      c20Stages(),
+		rule:        "the same monitor runs in a worker built without tags (amd64 assembly feMul/feSquare) and in one built with -tags purego from the same working tree. Each chunk (seeded by its index) (1) evaluates Multiply and Square on 24 operand pairs drawn from the reachable-representation recipes, half of them limb-maximising (limbs at 2^51+2^32, limb0 at 2^51+19*2^32), comparing value (Bytes and raw limbs) with math/big and asserting output limbs < 2^52 in each build; (2) places out/a/b at the start or end of an mmap'ed page bordered by PROT_NONE pages for all aliasing patterns (out=a, out=b, a=b, all equal), so any access outside the 40-byte operands is a fatal fault attributed to the chunk; (3) runs a deterministic public-API program (field inversion/sqrt/wide reduction, scalar arithmetic, decoding of arbitrary bytes, all point arithmetic and all five multiplications, encodings, Montgomery form, exported coordinates) hashing every value-level output; the controller compares the per-chunk hashes across the builds (default vs purego as the property says; default vs GOARCH=386 and default vs GOAMD64=v3 as extra configurations where this machine can run them). distinct by (operation, operand values and raw limbs).",
 		assumptions: append([]string{"only the configurations this machine can execute are monitored: amd64 default and purego; field/fe_arm64.s cannot be run here"}, commonAssumptions...),
 		minEvals:    1000,
 		custom:      compareBuilds,
